@@ -46,6 +46,10 @@ def parseOp (s : String) : Option Op :=
   | ["u2", id, n, a, r, o, d, g, col, c, b] => do
     pure (.updateA2 (← Bytes.ofHex id) (← parseVals n a r o d g b) (← Bytes.ofHex col) (parseChkA c) (c.toList.contains 'c'))
   | ["d2", id] => do pure (.deleteA (← Bytes.ofHex id))
+  | ["pa", id, ks] => do pure (.addPeers (← Bytes.ofHex id) (← parseList ks))
+  | ["pr", id, ks] => do pure (.removePeers (← Bytes.ofHex id) (← parseList ks))
+  | ["ps", id, ks] => do pure (.setPeers (← Bytes.ofHex id) (← parseList ks))
+  | ["ms", id, ks] => do pure (.setMentors (← Bytes.ofHex id) (← parseList ks))
   | ["ri", a, b] => do pure (.rcInc (← Bytes.ofHex a) (← Bytes.ofHex b))
   | ["rd", a, b] => do pure (.rcDec (← Bytes.ofHex a) (← Bytes.ofHex b))
   | ["rs", a, b, n] => do pure (.rcSet (← Bytes.ofHex a) (← Bytes.ofHex b) (← n.toNat?))
@@ -110,42 +114,43 @@ def scanW (id : Id) (ls : List Line) : String :=
   if ls.any inPath then "path" else if ls.any inKey then "key" else if ls.any inValue then "value" else "clean"
 
 /-- every entity id present before the transaction and absent after it (cascades included) -/
-def deletedW (spec : Bool) (s s' : State) : String :=
+def deletedW (nm : Names) (spec : Bool) (s s' : State) : String :=
   let now := liveIds s'
   let ids := (liveIds s).eraseDups.filter fun j => !now.contains j
   if ids.isEmpty then "."
   else
-    let ls := Render s'
+    let ls := Render nm s'
     let parts := ids.map fun j =>
       if spec then hexB j ++ "=ok/clean"
       else hexB j ++ "=" ++ (if ls.any (fun l => decide (Mentions j l)) then "found" else "ok") ++ "/" ++ scanW j ls ++
         -- the hypothesis of the no-trace theorems is evaluated for every validated delete
-        (if noClashCheck j s' then "" else "!noclash")
+        (if noClashCheck nm j s' then "" else "!noclash")
     ",".intercalate (sortStrings parts)
 
-def runModel (spec : Bool) (vals : List Bytes) (txs : List (List Op)) : String :=
+def runModel (nm : Names) (spec : Bool) (vals : List Bytes) (txs : List (List Op)) : String :=
   let rec go (s : State) (prev : String) (txs : List (List Op)) (acc : List String) : List String :=
     match txs with
     | [] => acc.reverse
     | ops :: rest =>
       let r := txStep s ops
       let s' := r.1
-      let del := if r.2 == .ok then deletedW spec s s' else "."
+      let del := if r.2 == .ok then deletedW nm spec s s' else "."
       if spec then
         -- the spec's verdict concerns committed deletes only: no trace of the id anywhere
         go s' "" rest (("-#-#-#" ++ del) :: acc)
       else
-        let dump := dumpW (Render s')
+        let dump := dumpW (Render nm s')
         let shown := if dump == prev then "=" else dump
         go s' dump rest ((resW s ops ++ "#" ++ shown ++ "#" ++ readsW vals s' ++ "#" ++ del) :: acc)
   "|".intercalate (go State.empty "" txs [])
 
 def stepWith (spec : Bool) (line : String) : String :=
   match splitSp line with
-  | ["h", vals, txs] =>
-    match parseList vals, parseTxs txs with
-    | some vs, some ts => runModel spec vs ts
-    | _, _ => "bad-case"
+  | [h, vals, txs] =>
+    -- `h`: the plain naming of the schema, `h1`: the variant with symbol ≠ key ≠ checker name
+    match (if h = "h" then some Names.std else if h = "h1" then some Names.alt else none), parseList vals, parseTxs txs with
+    | some nm, some vs, some ts => runModel nm spec vs ts
+    | _, _, _ => "bad-case"
   | _ => "bad-case"
 
 def step (line : String) : String := stepWith false line
